@@ -3,11 +3,12 @@
    slicers/root.py, broker.py, eventual.py), proofs in lib/OrderProofs.v.
 
    `run ops` is the state after an arbitrary sequence of
-     Issue stalls fate | StallRelease | Deliver | GiftReady k ok | Turn
+     Issue stalls fate | StallRelease | Deliver | GiftReady k ok | Turn | Disconnect
    i.e. calls issued at any time (also while the sender is paused inside a streaming argument), stalls released at
-   any time, bytes arriving at any time, gifts resolved or failed in any order, eventual-queue turns at any time.
+   any time, bytes arriving at any time, each of the n third-party references of a call (fate FGift n) resolved or
+   failed at any time and in any order, eventual-queue turns at any time, the receiver losing the connection at any time.
    Call k is the k-th call handed to Broker.send (C04_ids_are_issue_order). *)
-From Coq Require Import List Arith Sorted.
+From Coq Require Import List Arith ZArith Sorted.
 Import ListNotations.
 Require Import Verif.gen.OrderGen Verif.lib.Order Verif.lib.OrderProofs.
 
@@ -48,11 +49,11 @@ Proof. exact one_waiting. Qed.
 Print Assumptions C04_one_waiting.
 
 (* no call disappears: an issued call is entered, still on its way (sender queue, being serialized, wire, inbound
-   queue, waiting), or was explicitly refused *)
+   queue, waiting), was explicitly refused, or was queued on the receiver when it lost the connection *)
 Theorem C04_no_silent_loss : forall ops c,
   c < next_id (run ops) ->
   In c (entered (run ops)) \/ In c (pipeline (run ops)) \/
-  In (Failed c) (history (run ops)) \/ In (Rejected c) (history (run ops)).
+  In (Failed c) (history (run ops)) \/ In (Rejected c) (history (run ops)) \/ In c (ids (dropped (run ops))).
 Proof. exact no_silent_loss. Qed.
 Print Assumptions C04_no_silent_loss.
 
@@ -64,33 +65,71 @@ Print Assumptions C04_sender_never_idle_with_work.
 
 (* progress of the receiver: a turn of the eventual queue that holds a doNextCall enters the ready head *)
 Theorem C04_turn_enters_ready_head : forall s c rest,
-  waiting s = [] -> inq s = (c, Ready) :: rest -> evq s <> [] -> is_late c = false ->
+  lost s = false -> waiting s = [] -> inq s = (c, Ready) :: rest -> evq s <> [] -> is_late c = false ->
   In (cid c) (entered (turn s)).
 Proof. exact turn_enters_ready_head. Qed.
 Print Assumptions C04_turn_enters_ready_head.
 
 (* ... and the receiver is never stuck: a queued call with nothing waiting always has a doNextCall scheduled *)
 Theorem C04_receiver_never_stuck : forall ops,
-  inq (run ops) <> [] -> waiting (run ops) = [] -> evq (run ops) <> [].
+  lost (run ops) = false -> inq (run ops) <> [] -> waiting (run ops) = [] -> evq (run ops) <> [].
 Proof. exact receiver_never_stuck. Qed.
 Print Assumptions C04_receiver_never_stuck.
 
-(* from every reachable state, releasing the stalls, delivering the bytes, resolving the gifts and running turns
-   (no new calls, no failing gifts) empties the whole pipeline ... *)
-Theorem C04_can_always_settle : forall ops,
+(* from every reachable state of a live connection, releasing the stalls, delivering the bytes, resolving the gifts and
+   running turns (no new calls, no failing gifts, no loss) empties the whole pipeline ... *)
+Theorem C04_can_always_settle : forall ops, lost (run ops) = false ->
   exists more, Forall settle_op more /\ pipeline (run (ops ++ more)) = [].
 Proof. exact can_always_settle. Qed.
 Print Assumptions C04_can_always_settle.
 
 (* ... so every issued call can still be brought to a conclusion: it is entered (exactly once, by C04_at_most_once)
    or explicitly refused -- none is lost, whatever was stalled, blocked or rejected before *)
-Theorem C04_eventually_entered_or_refused : forall ops,
+Theorem C04_eventually_entered_or_refused : forall ops, lost (run ops) = false ->
   exists more, Forall settle_op more /\
     forall c, c < count_issues ops ->
       In c (entered (run (ops ++ more))) \/ In (Failed c) (history (run (ops ++ more))) \/
       In (Rejected c) (history (run (ops ++ more))).
 Proof. exact eventually_entered_or_refused. Qed.
 Print Assumptions C04_eventually_entered_or_refused.
+
+(* "calls issued while the sender is paused in the middle of streaming a large argument", end to end: at every moment
+   what has been entered, the delivery waiting for its gifts, the deliveries dropped by a loss, the inbound queue, the
+   wire, the call being serialized (paused or not) and the calls queued behind it on the sender form ONE strictly
+   increasing sequence of issue indices -- so a call issued during a pause can neither overtake the paused call nor any
+   earlier one, anywhere on the path *)
+Theorem C04_whole_path_in_issue_order : forall ops,
+  StronglySorted lt (entered (run ops) ++ wait_ids (run ops) ++ ids (dropped (run ops)) ++ inq_ids (run ops) ++
+                     ids (wire (run ops)) ++ cur_ids (run ops) ++ ids (sendq (run ops))).
+Proof. exact whole_path_in_issue_order. Qed.
+Print Assumptions C04_whole_path_in_issue_order.
+
+(* "regardless of calls that stall while a third-party reference (gift) is being resolved": a delivery with n >= 1
+   unresolved references becomes runnable exactly when all of them have resolved -- after the results rs of the first
+   |rs| <= n of them its ready_deferred has fired with a failure iff one failed, with success iff all n have resolved, and
+   not at all otherwise.  gnet_init / gifts_run are built from and_cb, and_init, update_child, args_close_*, which
+   gen/OrderGen.v translates statement by statement from util.AsyncAND and call.ArgumentUnslicer *)
+Theorem C04_runnable_iff_all_gifts_resolved : forall n rs, 1 <= n -> List.length rs <= n ->
+  g_out (gifts_run rs (gnet_init n)) =
+    if forallb (fun b => b) rs then (if List.length rs =? n then Some true else None) else Some false.
+Proof. intros n rs Hn Hl. exact (gifts_all_or_first_failure rs n (gnet_init n) (live_init n Hn) Hl). Qed.
+Print Assumptions C04_runnable_iff_all_gifts_resolved.
+
+(* connection loss (Broker.finish on the receiver): from then on no call is entered, whatever happens next -- calls
+   issued, stalls released, bytes, gifts resolving (the delivery that was waiting for one is refused, not entered), turns *)
+Theorem C04_nothing_entered_after_loss : forall ops more,
+  lost (run ops) = true -> entered (run (ops ++ more)) = entered (run ops).
+Proof. exact nothing_entered_after_loss. Qed.
+Print Assumptions C04_nothing_entered_after_loss.
+
+Theorem C04_loss_is_final : forall ops more, lost (run ops) = true -> lost (run (ops ++ more)) = true.
+Proof. exact loss_is_final. Qed.
+Print Assumptions C04_loss_is_final.
+
+(* deliveries are dropped only by a loss *)
+Theorem C04_dropped_only_after_loss : forall ops, lost (run ops) = false -> dropped (run ops) = [].
+Proof. exact dropped_only_after_loss. Qed.
+Print Assumptions C04_dropped_only_after_loss.
 
 (* foolscap.eventual's queue is an order-preserving channel, whatever else shares it -- unrelated callables, callables
    that raise, callables that write when they run.  This is all that orders calls on a LocalReferenceable, and it is
